@@ -8,6 +8,7 @@ classifies a returned expression as (+1 | -1, core expression text) or None.
 from __future__ import annotations
 
 import ast
+import copy
 from typing import Optional
 
 from .model import FuncInfo, Program, dotted, norm
@@ -69,39 +70,157 @@ def eval_expr(e: ast.AST, direction_exprs: set, tt: str) -> ast.AST:
     return e
 
 
+class _Subst(ast.NodeTransformer):
+    """replace loaded local names by their symbolic values (names bound by an enclosing comprehension are left alone)"""
+
+    def __init__(self, env: dict):
+        self.env = env
+        self.bound = []
+
+    def visit_Name(self, n):
+        if isinstance(n.ctx, ast.Load) and n.id in self.env and not any(n.id in b for b in self.bound):
+            return copy.deepcopy(self.env[n.id])
+        return n
+
+    def _comp(self, n):
+        b = set()
+        for g in n.generators:
+            b |= {x.id for x in ast.walk(g.target) if isinstance(x, ast.Name)}
+        # the first iterable is evaluated outside the comprehension scope
+        first = self.visit(n.generators[0].iter)
+        self.bound.append(b)
+        n = self.generic_visit(n)
+        self.bound.pop()
+        n.generators[0].iter = first
+        return n
+
+    visit_ListComp = visit_GeneratorExp = visit_SetComp = visit_DictComp = _comp
+
+    def visit_Lambda(self, n):
+        self.bound.append({a.arg for a in n.args.args + n.args.kwonlyargs + n.args.posonlyargs})
+        n = self.generic_visit(n)
+        self.bound.pop()
+        return n
+
+
+def _subst(e, env):
+    if e is None or not env:
+        return e
+    return ast.fix_missing_locations(_Subst(env).visit(copy.deepcopy(e)))
+
+
 def eval_function(fi_node, direction_exprs: set, tt: str) -> list:
-    """Return expressions reachable under direction tt (structured walk; raises Unknown)."""
+    """Return expressions reachable under direction tt, with the straight-line assignments to plain local names
+    substituted in (structured walk with a symbolic store; raises Unknown).  Two branches of a data test that leave
+    different values in a name are merged into a conditional expression on that test."""
     out = []
 
-    def block(stmts) -> bool:
+    def assign(env, name, value):
+        v = eval_expr(_subst(value, env), direction_exprs, tt)
+        # self-referential values are fine: the old value was substituted in
+        env[name] = v
+
+    def block(stmts, env) -> bool:
         """returns True if the block definitely returns"""
         for st in stmts:
             if isinstance(st, ast.Return):
-                out.append(eval_expr(st.value, direction_exprs, tt) if st.value is not None else None)
+                out.append(eval_expr(_subst(st.value, env), direction_exprs, tt) if st.value is not None else None)
                 return True
             if isinstance(st, ast.If):
-                v = eval_test(st.test, direction_exprs, tt)
+                v = eval_test(_subst(st.test, env), direction_exprs, tt)
                 if v is None:
-                    if any(norm(n) in direction_exprs for n in ast.walk(st.test)):
+                    test = _subst(st.test, env)
+                    if any(norm(n) in direction_exprs for n in ast.walk(test)):
                         raise Unknown(f"test `{norm(st.test)}` mixes the direction with other conditions")
                     # a data test (e.g. isinstance(value, list)): both branches are possible, every reachable return counts
-                    a = block(st.body)
-                    b = block(st.orelse) if st.orelse else False
+                    ea, eb = dict(env), dict(env)
+                    a = block(st.body, ea)
+                    b = block(st.orelse, eb) if st.orelse else False
                     if a and b:
                         return True
+                    if a:
+                        env.clear(); env.update(eb)
+                    elif b:
+                        env.clear(); env.update(ea)
+                    else:
+                        for k in set(ea) | set(eb):
+                            va, vb = ea.get(k), eb.get(k)
+                            if va is None or vb is None:
+                                env.pop(k, None)      # defined on one path only: leave the name symbolic
+                            elif ast.dump(va) == ast.dump(vb):
+                                env[k] = va
+                            else:
+                                env[k] = ast.IfExp(test=test, body=va, orelse=vb)
                     continue
-                if block(st.body if v else st.orelse):
+                if block(st.body if v else st.orelse, env):
                     return True
                 continue
             if isinstance(st, ast.Expr) and isinstance(st.value, ast.Constant):
                 continue
-            if isinstance(st, (ast.Assign, ast.AnnAssign, ast.Expr, ast.Pass)):
+            if isinstance(st, ast.Assign) and len(st.targets) == 1 and isinstance(st.targets[0], ast.Name):
+                assign(env, st.targets[0].id, st.value)
+                continue
+            if isinstance(st, ast.AnnAssign) and isinstance(st.target, ast.Name) and st.value is not None:
+                assign(env, st.target.id, st.value)
+                continue
+            if isinstance(st, (ast.Assign, ast.AnnAssign, ast.AugAssign)):
+                # stores into something else than a plain local: forget every local the target mentions
+                for n in ast.walk(st):
+                    if isinstance(n, ast.Name) and isinstance(n.ctx, ast.Store):
+                        env.pop(n.id, None)
+                if isinstance(st, ast.AugAssign) and isinstance(st.target, ast.Name):
+                    env.pop(st.target.id, None)
+                continue
+            if isinstance(st, (ast.Expr, ast.Pass)):
                 continue      # straight-line statements are looked at by the caller if it needs to
             raise Unknown(f"statement `{norm(st, 60)}` not understood by the sign evaluator")
         return False
 
-    block(fi_node.body)
+    block(fi_node.body, {})
     return out
+
+
+def expand_simple_calls(prog, module, e, direction_exprs, tt, depth: int = 2):
+    """Replace calls of package functions whose body is a single return (after an optional docstring) by that return
+    expression with the arguments substituted for the parameters (evaluated under direction tt)."""
+    if e is None or depth <= 0:
+        return e
+
+    class X(ast.NodeTransformer):
+        def visit_Call(self, c):
+            c = self.generic_visit(c)
+            if not isinstance(c.func, ast.Name):
+                return c
+            t = prog.resolve_name(module, c.func.id)
+            if t.kind == "import":
+                t2 = prog.resolve_target(t) if hasattr(prog, "resolve_target") else t
+                t = t2
+            f = prog.functions.get(t.ref) if t.kind == "func" else None
+            if f is None:
+                return c
+            body = [st for st in f.node.body if not (isinstance(st, ast.Expr) and isinstance(st.value, ast.Constant))]
+            if any(isinstance(a, ast.Starred) for a in c.args) or any(k.arg is None for k in c.keywords):
+                return c
+            params = f.params
+            env = {}
+            for p_, a_ in zip(params, c.args):
+                env[p_] = a_
+            for k in c.keywords:
+                env[k.arg] = k.value
+            if set(env) != set(params) and not all(p_ in env for p_ in params[:len(c.args)]):
+                return c
+            if len(env) != len(params):
+                return c
+            try:
+                rets = eval_function(ast.FunctionDef(name=f.name, args=f.node.args, body=body, decorator_list=[], lineno=0,
+                                                     col_offset=0), direction_exprs, tt)
+            except Unknown:
+                return c
+            if len(rets) != 1 or rets[0] is None:
+                return c
+            out = _subst(rets[0], env)
+            return expand_simple_calls(prog, f.module, out, direction_exprs, tt, depth - 1)
+    return ast.fix_missing_locations(X().visit(copy.deepcopy(e)))
 
 
 def sign_of(e: ast.AST, core_pred) -> Optional[int]:
@@ -112,7 +231,9 @@ def sign_of(e: ast.AST, core_pred) -> Optional[int]:
         return +1
     if isinstance(e, ast.IfExp):
         a, b = sign_of(e.body, core_pred), sign_of(e.orelse, core_pred)
-        return a if a is not None and a == b else None
+        if a is None or b is None:
+            return None
+        return a if a == b else 0        # 0: both branches understood, and they disagree (a data test picks the sign)
     if isinstance(e, (ast.ListComp, ast.GeneratorExp)) and len(e.generators) == 1 and not e.generators[0].ifs \
             and isinstance(e.generators[0].target, ast.Name) and core_pred(e.generators[0].iter):
         v = e.generators[0].target.id
@@ -168,15 +289,21 @@ def fcn_signs(prog: Program) -> dict:
     for tt in (MIN, MAX):
         try:
             rets = eval_function(fi.node, {"self._task.minmax"}, tt)
+            rets = [expand_simple_calls(prog, fi.module, r, {"self._task.minmax"}, tt) if r is not None else None for r in rets]
         except Unknown as exc:
             out[tt], why[tt] = None, str(exc)
             continue
         signs = {sign_of(r, core) if r is not None else None for r in rets}
-        if len(signs) == 1:
+        if None in signs:
+            bad_r = [r for r in rets if r is None or sign_of(r, core) is None]
+            out[tt] = None
+            why[tt] = f"return value `{norm(bad_r[0]) if bad_r and bad_r[0] is not None else None}` is not recognised as +/- self._task.solve({x})"
+        elif len(signs) == 1 and 0 not in signs:
             out[tt] = signs.pop()
-            why[tt] = "" if out[tt] is not None else f"return value `{norm(rets[0]) if rets and rets[0] is not None else None}` is not +/- self._task.solve({x})"
+            why[tt] = ""
         else:
-            out[tt], why[tt] = None, "several different return values"
+            # every return value is understood, and they do not agree: something other than the task direction picks the sign
+            out[tt], why[tt] = 0, "returns of both signs are reachable under this direction"
     return {"signs": out, "why": why, "func": fi}
 
 
@@ -260,7 +387,9 @@ def agent_value_sign(prog: Program, fi_node, module, e: ast.AST, is_agent, dir_n
         b = agent_value_sign(prog, fi_node, module, e.orelse, is_agent, dir_names, tt, depth - 1)
         if a[0] is not None and a[0] == b[0]:
             return a[0], a[1] and b[1], ""
-        return None, False, f"`{norm(e.test)}` decides the sign"
+        if a[0] is not None and b[0] is not None:
+            return 0, False, f"`{norm(e.test)}` (not the direction) decides the sign"
+        return None, False, a[2] or b[2] or f"`{norm(e.test)}` decides the sign"
     c = _copy_with_cost(e, is_agent)
     if c is not None:
         return c, True, ""
@@ -297,5 +426,7 @@ def agent_value_sign(prog: Program, fi_node, module, e: ast.AST, is_agent, dir_n
                 signs.add(s_)
             if len(signs) == 1 and None not in signs:
                 return signs.pop(), not inplace, ("" if not inplace else f"{callee.name} mutates the agent it is given")
-            return None, not inplace, f"{callee.name} returns values of different / unknown sign under {tt}"
+            if None not in signs:
+                return 0, not inplace, f"{callee.name} returns agents of both signs under {tt}"
+            return None, not inplace, f"{callee.name} returns a value of unknown sign under {tt}"
     return None, False, f"`{norm(e, 60)}` is neither the agent nor a copy with (+/-) its cost"
